@@ -31,5 +31,5 @@ prop("C11", level="exploration",
                   "the official JSON-Schema-Test-Suite vendored under /repo/test/jsonschema is the statement of the specification where both validators are checked against it",
                   "instance equality, code-point string length and ECMA-262 regular expressions restricted to literals ^ $ . [a-z] * + ? behave identically in Python re.search",
                   "for $schema-carrying documents default_version, require_format_validation (no format keyword) and compatibility_mode (no definitions/dependencies in 2019-09+) must not influence a verdict"],
-     stages=[dict(name="schema", kind="python", module="c11", builds=[("x_schema", "asan")], schemas_quick=4000, schemas_thorough=150000,
+     stages=[dict(name="schema", kind="python", module="c11", builds=[("x_schema", "asan")], schemas_quick=4000, schemas_thorough=100000,
                   shrink_cap_quick=150, shrink_cap_thorough=500, shrink_budget_s_quick=90, shrink_budget_s_thorough=900)])
